@@ -121,7 +121,11 @@ After fixes c6a08a9 (integer nbytes) and 5633eae (object arrays for string numpy
   integer formula, C04_nbytes_exact holds for every size (no 2^53 bound in `logical`), C04_strings_agree is the full
   statement; the *_before_fix theorems keep the refutations of the old code; both findings are "fixed" and their
   witnesses are corpus cases (corpus/C04/fixed_strings_nbytes.json; oracle-nbytes now checks every generated shape).
-Observations of the mutation engineer, all reproduced on the unchanged tree and judged inside the property (known
+All four observations below were then fixed in /repo (c3d2ba2, 2eeac5e, d585c3f, c2ae398): the findings are "fixed",
+their witnesses are corpus cases (corpus/C04/fixed_observations.json), RTorchConj is a `represents` constructor
+(resolved bytes; C04_torch_conj_refuted_before_fix keeps the old refutation), and file-append destinations, 2-D packed
+raw arrays and the ir.tensor string constructor paths are ordinary oracle + correspondence cases (no open C04 finding).
+Observations of the mutation engineer, all reproduced on the then-unchanged tree and judged inside the property (known
 findings with proposed_fixes/C04-*.diff, all four fixes together pass the 874 tests of the _core/serde/_constructors/
 tensor_adapters/external_data test files; demo proposed_fixes/C04-observations-demo.py):
   torch-conj-bytes        modelled (RTorchConj: numpy resolves the conjugation, tobytes does not), C04_torch_conj_refuted,
@@ -915,7 +919,7 @@ def build(spec: dict, workdir: str, tag: str = "t") -> Built:
                 if n and not tt.is_conj():
                     raise AssertionError("harness: conj() did not produce a lazy view")
                 t = tensor_adapters.TorchTensor(tt, name=tag)
-                # model of the code that exists (known finding torch-conj-bytes); after the fix this is a plain RTorch
+                # RTorchConj: numpy() and tobytes() both give the resolved values (fix c3d2ba2)
                 return Built(t, f"(RTorchConj {cdt} {cshape} {nl(stor)})")
             elif var == "view_t_offset":     # transposed view of a buffer region that starts at an offset
                 arr = np.array(xs, dtype=object).reshape(shape)
@@ -1849,17 +1853,8 @@ def shrink(spec: dict, workdir: str, fails) -> dict:
 
 
 def known_site(spec: dict, bad: list[str]) -> str | None:
-    """Known-finding key whose call site explains ALL the failures of this case (else None: a different violation)."""
-    p = spec.get("params", {})
-    inner = p.get("inner", {})
-    ext = spec["rep"] == "external" or inner.get("rep") == "external"
-    if spec["rep"] == "torch" and p.get("variant") == "view_conj":
-        if all(not b.startswith(("numpy()", "dtype", "shape", "nbytes", "construction")) for b in bad):
-            return "torch-conj-bytes"
-    if ext and all(b.startswith("tofile(") and "'file-append'" in b and "raised OSError" in b for b in bad):
-        return "external-tofile-append"
-    if spec["rep"] == "packed" and p.get("raw2d") and all(b.startswith("numpy() raised ValueError") for b in bad):
-        return "packed-2d-raw"
+    """Known-finding key whose call site explains ALL the failures of this case (else None: a different violation).
+    No C04 finding is open at the moment (all six recorded ones are fixed and run as ordinary corpus cases)."""
     return None
 
 
@@ -2138,18 +2133,6 @@ def run(ck) -> None:
             ck.known_finding(site, ck.known(site)["what"])
             bad = []
         cspec, cobs = spec, obs
-        ext = spec["rep"] == "external" or spec["params"].get("inner", {}).get("rep") == "external"
-        if ext and ck.known("external-tofile-append") and "tofile" in obs:
-            # not modelled (the destination model has no append flag): oracle only while the defect exists
-            keep = [i for i, d in enumerate(spec["dests"])
-                    if not (d["kind"] == "file-append" and obs["tofile"][i][0] == "raise" and obs["tofile"][i][1] == "OSError")]
-            cspec = dict(spec, dests=[spec["dests"][i] for i in keep])
-            cobs = dict(obs, tofile=[obs["tofile"][i] for i in keep])
-        if site == "torch-conj-bytes":
-            cspec = dict(spec, no_spec_check=True)   # model = the code that exists (RTorchConj); the specification check
-            #                                          is what the known finding says fails
-        if site == "packed-2d-raw":
-            cspec = None                           # the model's packed bytes are flat: oracle only while the defect exists
         if cspec is not None and not (spec.get("may_reject") and obs.get("construct_error") == spec["may_reject"]):
             cases.append((cspec, cobs))
         ck.hist("dtype", spec["dtype"])
@@ -2236,9 +2219,7 @@ def run(ck) -> None:
             ck.broken(f"known-finding-stale:{k['key']}", "the recorded witness no longer fails on the implementation "
                       "(the model / oracle still describe a defect the code no longer has)")
     for kind, shape, ss, bad in sfail[:3]:
-        if kind.startswith("ctor-") and ck.known("ir-tensor-string-ctor"):
-            ck.known_finding("ir-tensor-string-ctor", ck.known("ir-tensor-string-ctor")["what"])
-        else:
+        if True:
             ck.violation({"kind": "oracle-string", "strings": {"kind": kind, "shape": shape, "strings_hex": [x.hex() for x in ss]},
                           "failures": bad})
 
